@@ -461,6 +461,7 @@ func (c *Ctx) theoryAxioms() []string {
 	if c.usesLower {
 		out = append(out, "(assert (forall ((a Str)) (! (= (strLower (strLower a)) (strLower a)) :pattern ((strLower a)))))")
 		out = append(out, "(assert (= (strLower strEmpty) strEmpty))")
+		out = append(out, "(assert (forall ((a Str)) (! (=> (= (strLower a) strEmpty) (= a strEmpty)) :pattern ((strLower a)))))")
 		for _, s := range c.strOrder {
 			if l, ok := c.strLits[strings.ToLower(s)]; ok {
 				out = append(out, fmt.Sprintf("(assert (= (strLower %s) %s))", c.strLits[s].Op, l.Op))
